@@ -259,18 +259,52 @@ pub fn builder_state_pos(placement: &str, stm: Col, castle: u8, ep_file: u8) -> 
     }
     Some(p)
 }
-pub fn builder_from_state(placement: &str, stm: Col, castle: u8, ep_file: u8) -> Option<BoardBuilder> {
+pub fn builder_from_state(placement: &str, stm: Col, castle: u8, ep_file: u8, order: u8) -> Option<BoardBuilder> {
     let sq = placement_to_squares(placement)?;
-    let mut b = BoardBuilder::new();
-    for s in 0..64u8 {
-        if let Some((k, c)) = sq[s as usize] {
-            b.piece(lib_sq(s), lib_kind(k), lib_col(c));
+    let ep = if ep_file < 8 { Some(chess::File::from_index(ep_file as usize)) } else { None };
+    let wr = lib_rights(castle & 1 != 0, castle & 2 != 0);
+    let br = lib_rights(castle & 4 != 0, castle & 8 != 0);
+    if order & 8 != 0 {
+        // everything at once through the documented constructor
+        let mut pieces = vec![];
+        for s in 0..64u8 {
+            if let Some((k, c)) = sq[s as usize] {
+                pieces.push((lib_sq(s), lib_kind(k), lib_col(c)));
+            }
         }
+        return Some(BoardBuilder::setup(&pieces, lib_col(stm), wr, br, ep));
     }
-    b.side_to_move(lib_col(stm));
-    b.castle_rights(Color::White, lib_rights(castle & 1 != 0, castle & 2 != 0));
-    b.castle_rights(Color::Black, lib_rights(castle & 4 != 0, castle & 8 != 0));
-    b.en_passant(if ep_file < 8 { Some(chess::File::from_index(ep_file as usize)) } else { None });
+    // the builder's documented semantics are order-independent (each setter overwrites one field):
+    // the same final state is reached through different call orders
+    let mut b = BoardBuilder::new();
+    let put_pieces = |b: &mut BoardBuilder| {
+        for s in 0..64u8 {
+            if let Some((k, c)) = sq[s as usize] {
+                b.piece(lib_sq(s), lib_kind(k), lib_col(c));
+            }
+        }
+    };
+    let put_rights = |b: &mut BoardBuilder| {
+        b.castle_rights(Color::White, wr);
+        b.castle_rights(Color::Black, br);
+    };
+    if order & 4 != 0 {
+        b.side_to_move(lib_col(stm.other()));
+    }
+    if order & 2 != 0 {
+        put_rights(&mut b);
+        put_pieces(&mut b);
+    } else {
+        put_pieces(&mut b);
+        put_rights(&mut b);
+    }
+    if order & 1 != 0 {
+        b.en_passant(ep);
+        b.side_to_move(lib_col(stm));
+    } else {
+        b.side_to_move(lib_col(stm));
+        b.en_passant(ep);
+    }
     Some(b)
 }
 
@@ -297,7 +331,7 @@ impl Exec {
             msgs: BTreeMap::new(),
             stats: RunStats::default(),
             digest: Fnv::new(),
-            dirty_pool: vec![Board::default()],
+            dirty_pool: vec![],
             cur_n: 0,
             emitted: vec![],
             sub: 0,
@@ -364,7 +398,7 @@ impl Exec {
     fn apply(&mut self, op: &Op) -> Result<Flow, Violation> {
         match op {
             Op::StartFen { text } => self.start_fen(text),
-            Op::StartBuilder { placement, stm, castle, ep_file } => self.start_builder(placement, *stm, *castle, *ep_file),
+            Op::StartBuilder { placement, stm, castle, ep_file, order } => self.start_builder(placement, *stm, *castle, *ep_file, *order),
             Op::ClientAct { c, act } => match *c {
                 0 | 1 => self.client_act(Node::Client(*c), act),
                 _ => self.client_act(Node::Spectator, act),
@@ -418,8 +452,8 @@ impl Exec {
             Op::Engine { c, task, e } => self.engine_op(*c, *task, e),
             Op::Probe(p) => self.probe(p),
             Op::Validate { text } => self.validate_text(text),
-            Op::ValidateBuilder { placement, stm, castle, ep_file } => {
-                self.validate_builder(placement, *stm, *castle, *ep_file)
+            Op::ValidateBuilder { placement, stm, castle, ep_file, order } => {
+                self.validate_builder(placement, *stm, *castle, *ep_file, *order)
             }
             Op::Pair { a, b } => self.pair(a, b),
             Op::DecodeSan { fen, text } => self.decode_san_op(fen, text),
@@ -494,7 +528,7 @@ impl Exec {
         self.install_start(board, pos, game, "start_fen")
     }
 
-    fn start_builder(&mut self, placement: &str, stm: Col, castle: u8, ep_file: u8) -> Result<Flow, Violation> {
+    fn start_builder(&mut self, placement: &str, stm: Col, castle: u8, ep_file: u8, order: u8) -> Result<Flow, Violation> {
         let pos = match builder_state_pos(placement, stm, castle, ep_file) {
             Some(p) => p,
             None => return Ok(Flow::Go),
@@ -502,7 +536,7 @@ impl Exec {
         if pos.strict_validity_error().is_some() {
             return Ok(Flow::Go);
         }
-        let bb = builder_from_state(placement, stm, castle, ep_file).unwrap();
+        let bb = builder_from_state(placement, stm, castle, ep_file, order).unwrap();
         let board = match guard(|| Board::try_from(&bb)) {
             Ok(Ok(b)) => b,
             Ok(Err(e)) => {
@@ -1162,7 +1196,7 @@ impl Exec {
                 let np = self.srv.model.as_ref().unwrap().pos.clone();
                 // C02: the same (position, move) through both entry points with a used output buffer
                 if self.on(2) {
-                    let dirty = self.dirty_pool[(self.cur_n as usize) % self.dirty_pool.len()];
+                    let dirty = if self.dirty_pool.is_empty() { before_pos } else { self.dirty_pool[(self.cur_n as usize) % self.dirty_pool.len()] };
                     guard(|| c02_successor(&before_pos, &prev_pos, mv, &dirty))
                         .map_err(|e| viol("C02", "successor/panic", format!("{} on {} in {}", e, mv.uci(), prev_pos.fen())))??;
                     let mut f = Fnv::new();
@@ -1771,7 +1805,7 @@ impl Exec {
                             self.request_snapshot(c);
                             return Ok(Flow::Go);
                         }
-                        let dirty = self.dirty_pool[(self.cur_n as usize + 1) % self.dirty_pool.len()];
+                        let dirty = if self.dirty_pool.is_empty() { rb } else { self.dirty_pool[(self.cur_n as usize + 1) % self.dirty_pool.len()] };
                         let mut nb = dirty;
                         rb.make_move(lib_mv(mv), &mut nb);
                         if nb.get_hash() != m.fp {
